@@ -1,0 +1,48 @@
+//go:build verif
+
+// Package verifhook provides call-site markers for runtime verification harnesses.
+// With the `verif` build tag the markers dispatch to a handler installed by the harness.
+package verifhook
+
+import "sync/atomic"
+
+// Enabled reports whether the package was built with the `verif` tag.
+const Enabled = true
+
+// Handler receives marker events. Nil fields are ignored.
+type Handler struct {
+	// Point is called at every Point/PointKV marker (key is nil for Point).
+	Point func(name string, key any)
+	// Fault is called at every Fault marker; a non-nil result is returned to the call site.
+	Fault func(name string) error
+}
+
+var handler atomic.Pointer[Handler]
+
+// Set installs h (nil uninstalls) and returns a function restoring the previous handler.
+func Set(h *Handler) (restore func()) {
+	prev := handler.Swap(h)
+	return func() { handler.Store(prev) }
+}
+
+// Point marks a named call site.
+func Point(name string) {
+	if h := handler.Load(); h != nil && h.Point != nil {
+		h.Point(name, nil)
+	}
+}
+
+// PointKV marks a named call site with a key (e.g. a height or a path).
+func PointKV(name string, key any) {
+	if h := handler.Load(); h != nil && h.Point != nil {
+		h.Point(name, key)
+	}
+}
+
+// Fault marks a named call site at which a harness may inject an error.
+func Fault(name string) error {
+	if h := handler.Load(); h != nil && h.Fault != nil {
+		return h.Fault(name)
+	}
+	return nil
+}
